@@ -161,3 +161,15 @@ Theorem C14_source_impls_and_encoder :
    ("# [cfg (all (feature = ""faster-hex"" , not (miri)))]",
     "match UPPER { true => unsafe { faster_hex :: hex_encode_upper (src , dst) . unwrap_unchecked () } , false => unsafe { faster_hex :: hex_encode (src , dst) . unwrap_unchecked () } , }")]%string.
 Proof. exact (conj tie_hex_impls tie_hex_encode). Qed.
+
+(* ---- T1: the one-expression bodies this property's code consists of besides the modelled core, as they stand
+        in the source now (coq/gen/GenSigs.v gen_thin_bodies) ---- *)
+From Coq Require Import String.
+From GA Require Import SigTie.
+From GAGen Require Import GenSigs.
+Local Open Scope string_scope.
+
+Theorem C14_source_thin_bodies :
+  thin_of "fmt::LowerHex for GenericArray<u8,N>" "fmt" = Some "generic_hex :: < _ , false > (self , f)" /\
+  thin_of "fmt::UpperHex for GenericArray<u8,N>" "fmt" = Some "generic_hex :: < _ , true > (self , f)".
+Proof. repeat split. Qed.
